@@ -5,3 +5,9 @@ import TypedpyModel.Props.C01
 #print axioms Typedpy.C01.entry_chain_sound
 #print axioms Typedpy.C01.construct_then_chain_sound
 #print axioms Typedpy.C01.soundness_example
+#print axioms Typedpy.C01.constructH_sound
+#print axioms Typedpy.C01.entryH_sound
+#print axioms Typedpy.C01.entryH_chain_sound
+#print axioms Typedpy.C01.constructH_then_chain_sound
+#print axioms Typedpy.C01.constructH_no_hook
+#print axioms Typedpy.C01.hook_example
